@@ -1,4 +1,6 @@
 import ScriggoV.Lemmas.GoStmt
+import ScriggoV.Model.GoCopy
+import ScriggoV.Gen.GoCopy
 /-! # C14 — goroutine and channel programs agree with gc under every schedule
 
 Property theorems only; the models are in `Model/GoStmt.lean`.
@@ -13,6 +15,10 @@ Property theorems only; the models are in `Model/GoStmt.lean`.
   statement, whatever the parent (or anybody else) does afterwards, for every schedule.
 * `shared_window_breaks_snapshot`: with the window *shared* instead of copied the statement is
   false — the copy in `startGoroutine` is what the theorem rests on.
+
+* `go_params_own_shift` / `go_copy_shifts_match`: the four register files (int, float, string,
+  general) are copied each at its own stack shift — regenerated from `startGoroutine`, OpCallFunc
+  and registers.go; `wrong_shift_breaks_params` shows what happens otherwise.
 
 Not covered here: that the compiled code of a program refines these statements (emitter), the
 bounds of `startGoroutine`'s slicing (`go_copy_in_bounds`, property C05), `select`, panicking
@@ -177,3 +183,55 @@ example : (srunRandom pipeProg 200 12345 (sinit pipeProg ⟨[], [⟨0, [], false
   decide
 
 end ScriggoV.GoStmt
+
+/-! ### `go` with arguments of every register class: each class at its own shift -/
+namespace ScriggoV.GoCopy
+open ScriggoV.Gen.GoCopy
+
+/-- **C14, every parameter class is read at its own shift.** If `startGoroutine` uses, for every
+register class, that class's own operand of the shift instruction, the new goroutine finds every
+register of every class exactly where the emitter placed it — whatever the four frame pointers
+and the four shifts (that is, however many int, float, string and general locals are live in the
+caller). -/
+theorem go_params_own_shift (sel : Nat → Nat) (hsel : ∀ c, c < 4 → sel c = c) (p : Parent) (c r : Nat)
+    (hc : c < 4) : childReg sel p c r = placed p c r := by
+  simp [childReg, childFile, placed, hsel c hc, List.getElem?_drop]
+
+/-- … and with one class copied at another class's shift it does not: strings copied at the float
+shift (`off.A` for `off.B`) from a frame with one live string local and no float local hand the
+goroutine the caller's own local instead of its argument. -/
+theorem wrong_shift_breaks_params :
+    ∃ (p : Parent), childReg (fun c => if c = 2 then 1 else c) p 2 1 ≠ placed p 2 1 := by
+  refine ⟨⟨fun c => if c = 2 then [0, 10, 20, 30] else [], fun _ => 0,
+    fun c => if c = 2 then 1 else 0⟩, ?_⟩
+  decide
+
+/-- which class's shift operand `startGoroutine` uses for the register file addressed with frame
+pointer `c`, as extracted: the copy whose destination file has frame pointer `c`, its `off.`
+field, and the class whose frame pointer OpCallFunc shifts by that field -/
+def selOfCode (c : Nat) : Nat :=
+  match goCopies.find? (fun k => fileFp.lookup k.dst == some c) with
+  | none => 99
+  | some k =>
+    match callShifts.find? (fun s => s.2 == k.field) with
+    | some s => s.1
+    | none => 99
+
+/-- **generated fact** `go_copy_shifts_match`: the four copy statements of `startGoroutine` pair
+every register file with itself, with its own frame pointer (also in the upper bound and the
+stack top) and with its own stack shift — the pairing of OpCallFunc and of registers.go -/
+theorem go_copy_shifts_match :
+    (∀ c, c < 4 → selOfCode c = c) ∧
+    goCopies.length = 4 ∧
+    goCopies.all (fun k => k.dst == k.src && fileFp.lookup k.dst == some k.fp &&
+      k.hiFp == toString k.fp && k.hiSt == toString k.fp) = true ∧
+    callShifts = [(0, "Op"), (1, "A"), (2, "B"), (3, "C")] ∧
+    fileFp = [("float", 1), ("general", 3), ("int", 0), ("string", 2)] := by
+  decide
+
+/-- the code's `startGoroutine` hands every parameter of every class to the goroutine -/
+theorem go_params_own_shift_code (p : Parent) (c r : Nat) (hc : c < 4) :
+    childReg selOfCode p c r = placed p c r :=
+  go_params_own_shift selOfCode go_copy_shifts_match.1 p c r hc
+
+end ScriggoV.GoCopy
